@@ -2,9 +2,9 @@ CONSTANTS
  B = 3
  C = 2
  UL = 2
- Guard = FALSE
+ Guard = TRUE
  MaxLen = 3
 SPECIFICATION Spec
 INVARIANTS TypeOK NoEndlessRepeat
-CONSTRAINT Bounded
+PROPERTY Terminates
 CHECK_DEADLOCK FALSE
